@@ -2,3 +2,5 @@ import RenoVerif.Model.RKTree
 import RenoVerif.Props.C19
 import RenoVerif.Gen.RK
 import RenoVerif.Gen.RKProps
+import RenoVerif.Model.Cover
+import RenoVerif.Props.C20
